@@ -583,18 +583,18 @@ func judge(p Property, meta Meta, tier string, seed int64, n int, agg *aggregate
 		observed[k] = v
 	}
 	cov := map[string]interface{}{
-		"evaluations":         agg.done,
-		"distinct_nontrivial": len(agg.nt),
-		"rule":                meta.Rule,
-		"samples":             samples,
-		"observed":            observed,
-		"obligations":         meta.Obligations,
-		"obligations_unmet":   unmet,
-		"planned_cases":       n,
-		"worker_processes":    agg.workers,
-		"worker_crashes":      agg.crashes,
-		"known_findings_seen": knownSeen,
-		"inconclusive":        agg.inconclusive,
+		"evaluations":                agg.done,
+		"distinct_nontrivial":        len(agg.nt),
+		"rule":                       meta.Rule,
+		"samples":                    samples,
+		"observed":                   observed,
+		"coverage_obligations":       meta.Obligations,
+		"coverage_obligations_unmet": unmet,
+		"planned_cases":              n,
+		"worker_processes":           agg.workers,
+		"worker_crashes":             agg.crashes,
+		"known_findings_seen":        knownSeen,
+		"inconclusive":               agg.inconclusive,
 	}
 	if meta.Race {
 		cov["race_reports"] = agg.raceBlocks
